@@ -12,7 +12,6 @@ use std::time::Duration;
 use vkit::{Monitor, Rng};
 
 const REQ_TO: Duration = Duration::from_millis(800);
-const CONN_TO: Duration = Duration::from_millis(400);
 
 #[derive(Clone, Copy, Debug, PartialEq, Eq, Hash)]
 enum Kind {
@@ -23,11 +22,13 @@ enum Kind {
     Closest,
 }
 
-fn bound(k: Kind) -> Duration {
-    let lookup = (CONN_TO + REQ_TO) * 20;
+/// `dial` = what one dial may cost: the smaller of the transport's connection timeout and the
+/// request timeout (the property bounds everything by the REQUEST timeout)
+fn bound(k: Kind, dial: Duration) -> Duration {
+    let lookup = (dial + REQ_TO) * 20;
     let b = match k {
         Kind::FindNode | Kind::Closest => lookup,
-        Kind::Put | Kind::Get => lookup + REQ_TO + CONN_TO,
+        Kind::Put | Kind::Get => lookup + REQ_TO + dial,
         Kind::Ping => REQ_TO,
     };
     b.mul_f64(1.5) + Duration::from_millis(100)
@@ -44,7 +45,11 @@ struct OpRec {
 async fn scenario(mon: &Monitor, rng: &mut Rng, realtime: bool) {
     let n = rng.urange(2, mon.by_tier(8, 12));
     let topo = *rng.pick(&TOPOS);
-    let cfg = NodeCfg { request_timeout: REQ_TO, connection_timeout: CONN_TO, replication_factor: *rng.pick(&[2usize, 3, 8]), ..Default::default() };
+    // the transport's connection timeout may be shorter than, a few times, or (the stand-alone
+    // default) far beyond the request timeout; the bounds below only ever use the smaller of the two
+    let conn_to = *rng.pick(&[REQ_TO / 2, REQ_TO * 4, Duration::from_secs(30), Duration::from_secs(300)]);
+    let dial = conn_to.min(REQ_TO);
+    let cfg = NodeCfg { request_timeout: REQ_TO, connection_timeout: conn_to, replication_factor: *rng.pick(&[2usize, 3, 8]), ..Default::default() };
     let w = match World::build(rng, n, topo, &cfg).await {
         Ok(w) => Arc::new(w),
         Err(e) => {
@@ -131,7 +136,7 @@ async fn scenario(mon: &Monitor, rng: &mut Rng, realtime: bool) {
             let recs2 = recs.clone();
             let val = format!("v-{node}-{j}").into_bytes();
             let yields = rng.below(4);
-            let b = bound(kind).mul_f64(slack);
+            let b = bound(kind, dial).mul_f64(slack);
             handles.push(tokio::spawn(async move {
                 tokio::time::sleep(delay).await;
                 for _ in 0..yields {
@@ -243,7 +248,7 @@ async fn scenario(mon: &Monitor, rng: &mut Rng, realtime: bool) {
     let inflight_at_stop = stop_info.as_ref().map(|(s, t0, _, _, _)| recs.lock().iter().filter(|r| r.node == *s && r.started <= *t0 && r.ended.map_or(true, |e| e > *t0)).count()).unwrap_or(0);
     let ctx = |extra: serde_json::Value| {
         json!({"n": n, "topology": format!("{topo:?}"), "ops_per_node": per_node, "silenced": silence_plan.len(), "stop_node": stop_node, "stop_phase": stop_phase,
-               "stop_at_ms": stop_at.as_millis() as u64, "inflight_on_stopped_node": inflight_at_stop, "realtime": realtime, "detail": extra})
+               "stop_at_ms": stop_at.as_millis() as u64, "connection_timeout_ms": conn_to.as_millis() as u64, "inflight_on_stopped_node": inflight_at_stop, "realtime": realtime, "detail": extra})
     };
     let frames = w.hub.trace_since(0);
     {
@@ -264,7 +269,7 @@ async fn scenario(mon: &Monitor, rng: &mut Rng, realtime: bool) {
             let on_stopped = stop_node == Some(r.node);
             mon.violation(
                 &format!("completion/{:?}-exceeded-bound/{}", r.kind, if on_stopped { "on-stopped-node" } else { "on-running-node" }),
-                ctx(json!({"node": r.node, "started_ms": (r.started - t_base).as_millis() as u64, "bound_ms": bound(r.kind).mul_f64(slack).as_millis() as u64})),
+                ctx(json!({"node": r.node, "started_ms": (r.started - t_base).as_millis() as u64, "bound_ms": bound(r.kind, dial).mul_f64(slack).as_millis() as u64, "connection_timeout_ms": conn_to.as_millis() as u64})),
             );
         }
     }
@@ -350,7 +355,7 @@ fn main() {
     let mon = Monitor::new("C20", "exploration");
     mon.set_rule("case = one run: N real nodes, 4..40 concurrent find_node/put/get/ping/closest per node, seeded delivery jitter and yields, peers silenced at seeded virtual instants, stop() at a seeded instant; non-trivial when >=2 concurrent ops; distinct by (hash of the frame sequence, stop phase)");
     mon.assume("bounds in virtual time from the code's constants: lookup 20*(dial+request), put/get + one request, stop (peers+1)*request, each x1.5; real-time lane judges only 30x the bound");
-    let per_shard = mon.by_tier(50u64, 900);
+    let per_shard = mon.by_tier(200u64, 900);
     vkit::run_shards(mon.shards(), mon.seed, |_i, mut rng| {
         for _ in 0..per_shard {
             if mon.spent(0.85) {
